@@ -394,8 +394,13 @@ def check_cll(rep, tier, seed):
 
 
 def check(rep, tier, seed):
-    check_simplify(rep, tier, seed)
-    check_cll(rep, tier, seed)
+    import os
+    part = os.environ.get("VERIF_C09_PART", "all")        # development aid: run only `simplify` or only `cll`
+    if part in ("all", "simplify"):
+        check_simplify(rep, tier, seed)
+    if part in ("all", "cll"):
+        check_cll(rep, tier, seed)
+    rep.extra["parts_run"] = part
     rep.rule = ("(a) seeded programs aimed at simplify.c: applications of + - * / quotient remainder (and similar pure "
                 "primitives) to literal operands incl. fixnum-overflowing, dividing by zero and ill-typed, placed in 13 "
                 "contexts; 27 let-constant templates (shadowing, set! in body / closure / after use, aliases, macros) x 17 "
